@@ -9,6 +9,7 @@ package main
 import (
 	"bytes"
 	"context"
+	"errors"
 	"fmt"
 	"io"
 
@@ -181,15 +182,15 @@ func checkDag(k *vlib.Case, ctx context.Context, ds ipld.DAGService, c cfg, root
 	iss := dagcheck.CheckTrickle(tree, c.width)
 	for _, i := range iss {
 		class := pfx + i.Kind
+		detail := ""
 		if i.Kind == "trickle/too-deep" && base != nil {
-			class = classifyTooDeep(i, base, c.width)
+			detail = "; placement: " + classifyTooDeep(i, base, c.width)
 		}
 		if seen[class] {
 			continue
 		}
 		seen[class] = true
-		k.C.Count("cases_with["+class+"]/"+k.Stratum, 1)
-		k.Fail(class, i.Clause, fmt.Sprintf("node %v: %s", i.Path, i.Expected), fmt.Sprintf("%s, %d layer(s) over budget (%s); shape=%s", i.Observed, i.Over, stage, dagcheck.Shape(tree, 300)))
+		k.Fail(class, i.Clause, fmt.Sprintf("node %v: %s", i.Path, i.Expected), fmt.Sprintf("%s, %d layer(s) over budget (%s)%s; shape=%s", i.Observed, i.Over, stage, detail, dagcheck.Shape(tree, 300)))
 	}
 	// cross-check with the repository's own verifier
 	if pn, ok := stored.(*dag.ProtoNode); ok {
@@ -205,38 +206,38 @@ func checkDag(k *vlib.Case, ctx context.Context, ds ipld.DAGService, c cfg, root
 	return tree, len(iss) == 0
 }
 
-// classifyTooDeep decides whether a too-deep subtree matches the known defect:
-// the over-budget node Q was *created by this append* (it is not in the base)
-// as a child of a node P that lies on the base DAG's right spine (the only
-// nodes Append touches), P had a child count with repeatNumber==0 in the base
-// (<= width children, or width+4k), and Q is exactly one layer over budget.
+// classifyTooDeep describes where an over-budget node Q sits relative to the
+// base DAG (diagnostic detail of the witness only; the class is uniform since
+// the repeatNumber==0 defect was fixed upstream): was Q created by this append
+// as a child of a node P on the base's right spine (the only nodes Append
+// touches), and did P have repeatNumber==0 (<= width children, or width+4k).
 func classifyTooDeep(i dagcheck.Issue, base *dagcheck.Node, width int) string {
 	if len(i.Path) == 0 {
-		return "append/trickle/too-deep/other(root)"
+		return "other(root)"
 	}
 	ppath, qidx := i.Path[:len(i.Path)-1], i.Path[len(i.Path)-1]
 	// P must be on the base's right spine
 	cur := base
 	for _, idx := range ppath {
 		if idx != len(cur.Children)-1 {
-			return "append/trickle/too-deep/other(off-spine)"
+			return "other(off-spine)"
 		}
 		cur = cur.Children[idx]
 	}
 	if cur.IsLeaf() && len(ppath) > 0 {
-		return "append/trickle/too-deep/other(parent-was-leaf)"
+		return "other(parent-was-leaf)"
 	}
 	nP := len(cur.Children)
 	if qidx < nP {
-		return "append/trickle/too-deep/other(existing-child)"
+		return "other(existing-child)"
 	}
 	if i.Over != 1 {
 		return fmt.Sprintf("append/trickle/too-deep/other(over=%d)", i.Over)
 	}
 	if !repeat0(nP, width) {
-		return "append/trickle/too-deep/other(repeat!=0)"
+		return "other(repeat!=0)"
 	}
-	return "append/repeat0/too-deep"
+	return "new child of a right-spine node with repeatNumber==0, one layer over"
 }
 
 func mismatch(got, want []byte) string {
@@ -250,6 +251,156 @@ func mismatch(got, want []byte) string {
 		}
 	}
 	return fmt.Sprintf("%d bytes (common prefix equal)", len(got))
+}
+
+// faultReader delivers data and then fails with a non-EOF error (for ever),
+// optionally handing out the last good bytes together with the error.
+type faultReader struct {
+	data     []byte
+	off      int
+	withData bool
+}
+
+var errInjected = errors.New("injected read fault: input/output error")
+
+func (f *faultReader) Read(p []byte) (int, error) {
+	if len(p) == 0 {
+		return 0, nil
+	}
+	if f.off >= len(f.data) {
+		return 0, errInjected
+	}
+	n := copy(p, f.data[f.off:])
+	f.off += n
+	if f.withData && f.off == len(f.data) {
+		return n, errInjected
+	}
+	return n, nil
+}
+
+// faultCase: a healthy trickle base, then Append from a reader that fails with
+// a non-EOF error after k bytes of the data to append. Acceptable outcomes:
+// Append reports an error, or it returns a file holding base followed by the
+// *complete* intended data. A nil error with less content is the violation.
+func faultCase(k *vlib.Case) {
+	r := k.R
+	ctx := context.Background()
+	c := genCfg(r)
+	limit := 200
+	baseCount := genCount(r, c.width, limit)
+	baseLen := baseCount * c.csz
+	if baseLen > 0 && c.csz > 1 && r.Chance(1, 3) {
+		baseLen -= r.Range(1, c.csz-1)
+	}
+	content := genBytes(r, baseLen)
+	extraCount := genCount(r, c.width, limit)
+	if extraCount == 0 && r.Chance(3, 4) {
+		extraCount = r.Range(1, 3*c.width+2)
+	}
+	extraLen := extraCount * c.csz
+	if extraLen > 0 && c.csz > 1 && r.Chance(1, 3) {
+		extraLen -= r.Range(1, c.csz-1)
+	}
+	extra := genBytes(r, extraLen)
+	// chunk boundaries of the intended appended data
+	var lens, bounds []int
+	sp := splitter(c, extra)
+	o := 0
+	for {
+		b, err := sp.NextBytes()
+		if err != nil {
+			break
+		}
+		o += len(b)
+		lens = append(lens, len(b))
+		bounds = append(bounds, o)
+	}
+	at, where := 0, "offset-0"
+	if len(extra) > 0 {
+		switch r.Intn(6) {
+		case 0:
+		case 1:
+			ci := r.Intn(len(lens))
+			start := bounds[ci] - lens[ci]
+			at, where = start+r.Intn(lens[ci]), "inside-chunk"
+			if at == start && lens[ci] > 1 {
+				at++
+			}
+		case 2:
+			at, where = bounds[r.Intn(len(bounds))], "chunk-boundary"
+		case 3:
+			last := len(lens) - 1
+			at, where = bounds[last]-lens[last]+r.Intn(lens[last]), "last-chunk"
+		case 4:
+			at, where = len(extra), "at-end(error instead of EOF)"
+		default:
+			at, where = r.Intn(len(extra)+1), "random"
+		}
+	}
+	fr := &faultReader{data: extra[:at], withData: r.Chance(1, 3)}
+	k.Logf("width=%d rawLeaves=%v chunker=%s builder=%s", c.width, c.raw, c.spec, c.bname)
+	k.Logf("base len=%d (%d chunks)", len(content), countChunks(c, content))
+
+	ds := mdtest.Mock()
+	db, err := c.params(ds).New(splitter(c, content))
+	if err != nil {
+		panic(err)
+	}
+	root, err := trickle.Layout(db)
+	if err != nil {
+		k.Fail("layout/error", "Layout succeeds", "root", err.Error())
+		return
+	}
+	tree, ok := checkDag(k, ctx, ds, c, root, content, nil, "base")
+	if tree == nil || !ok || k.Failed() {
+		return
+	}
+	k.Logf("  base shape=%s", dagcheck.Shape(tree, 200))
+	k.Logf("append of %d bytes (%d chunks) from a reader that fails after %d bytes (%s, error-with-last-bytes=%v)", len(extra), len(lens), at, where, fr.withData)
+	baseNode, err := ds.Get(ctx, root.Cid())
+	if err != nil {
+		panic(err)
+	}
+	fspl, err := chunk.FromString(fr, c.spec)
+	if err != nil {
+		panic(err)
+	}
+	adb, err := c.params(ds).New(fspl)
+	if err != nil {
+		panic(err)
+	}
+	nroot, err := trickle.Append(ctx, baseNode, adb)
+	k.C.Count("fault_appends", 1)
+	if at < len(extra) {
+		k.Nontrivial()
+	}
+	if err != nil {
+		k.C.Count("fault_appends_reported_error", 1)
+		k.Logf("  -> error: %v", err)
+		return
+	}
+	if nroot == nil {
+		k.Fail("append-nil-root", "Append returns a root or an error", "root or error", "nil, nil")
+		return
+	}
+	if err := ds.Add(ctx, nroot); err != nil {
+		panic(err)
+	}
+	want := append(append([]byte(nil), content...), extra...)
+	var got []byte
+	size := uint64(0)
+	dr, derr := uio.NewDagReader(ctx, nroot, ds)
+	if derr == nil {
+		size = dr.Size()
+		got, derr = io.ReadAll(dr)
+	}
+	if derr != nil || !bytes.Equal(got, want) {
+		k.Fail("append-error-swallowed", "a failed input stream yields an error, or else old content followed by the complete new bytes",
+			fmt.Sprintf("error (reader failed after %d of %d bytes), or a file of %d bytes", at, len(extra), len(want)),
+			fmt.Sprintf("nil error, root %s, Size()=%d, reads back %d bytes = base %d + %d appended (read error: %v); fault %s", nroot.Cid(), size, len(got), len(content), len(got)-len(content), derr, where))
+		return
+	}
+	k.C.Count("fault_appends_complete_content", 1)
 }
 
 func spineCounts(t *dagcheck.Node) []int {
@@ -269,9 +420,8 @@ func oneCase(stratum string) func(k *vlib.Case) {
 		nAppends := 1
 		switch stratum {
 		case "small":
-			// clean stratum: base+appended chunks <= 2*width, i.e. everything
-			// stays in the root's direct leaves and its first subtree, where the
-			// known defect (a layer created one level too deep) cannot show
+			// base+appended chunks <= 2*width: everything stays in the root's
+			// direct leaves and its first subtree
 			limit = 2 * c.width
 			if c.spec[0] != 's' {
 				c.csz = vlib.Pick(r, []int{1, 4, 16})
@@ -371,7 +521,7 @@ func oneCase(stratum string) func(k *vlib.Case) {
 }
 
 func run(c *vlib.Ctx) {
-	c.Rule("case = (trickle.Layout base, 1 append; stratum multi: 2-5 successive appends, each result validated before it becomes the next base). width {2..6,8,11,16} x chunker {size-1..512, rabin-min-avg-max} x raw/dag-pb leaves x CID builder; base and appended chunk counts 0..300 (wide: 600, multi: 120; small: base+appended <= 2*width, a stratum the known defect cannot reach) at trickle layer boundaries ±1 or random, partial last leaves. distinct = FNV of config+lengths+resulting shapes; non-trivial = a non-empty append onto a non-empty base yields a DAG of height >= 3.")
+	c.Rule("case = (trickle.Layout base, 1 append; stratum multi: 2-5 successive appends, each result validated before it becomes the next base). width {2..6,8,11,16} x chunker {size-1..512, rabin-min-avg-max} x raw/dag-pb leaves x CID builder; base and appended chunk counts 0..300 (wide: 600, multi: 120; small: base+appended <= 2*width) at trickle layer boundaries ±1 or random, partial last leaves. distinct = FNV of config+lengths+resulting shapes; non-trivial = a non-empty append onto a non-empty base yields a DAG of height >= 3. Stratum fault: healthy base (<=200 chunks), the reader behind the appended data's chunker returns a non-EOF error after k bytes (k = 0, inside a chunk, chunk boundary, last chunk, at the end, random; error alone or with the last bytes); acceptable = Append returns an error, or nil with base+complete data; non-trivial = k < len(appended data).")
 	// thorough counts are for a build without -race; under -race the tier runs 1/5 of them.
 	n := func(q, t int) int {
 		if raceEnabled {
@@ -386,4 +536,5 @@ func run(c *vlib.Ctx) {
 	c.Cases("small", n(200, 4000), oneCase("small"))
 	c.Cases("wide", n(150, 3000), oneCase("wide"))
 	c.Cases("multi", n(250, 5000), oneCase("multi"))
+	c.Cases("fault", n(300, 6000), faultCase)
 }
